@@ -29,6 +29,7 @@ HARNESS_MODULES = {
     "channel.rs": "src/channel.rs",
     "aes_rng.rs": "src/crypto/aes_rng.rs",
     "aes_hash.rs": "src/crypto/aes_hash.rs",
+    "avx2.rs": "src/transpose/avx2.rs",
     "fpre.rs": "src/mpc/fpre.rs",
     "kos.rs": "src/ot_core/kos.rs",
     "file_or_mem_buf.rs": "src/utils/file_or_mem_buf.rs",
